@@ -229,7 +229,7 @@ func (sp SiteSpec) matches(s Site, withGuards bool) bool {
 			return false
 		}
 		for i, a := range sp.Args {
-			if a != "*" && a != s.Args[i] {
+			if a != "*" && !termEq(a, s.Args[i]) {
 				return false
 			}
 		}
@@ -238,7 +238,7 @@ func (sp SiteSpec) matches(s Site, withGuards bool) bool {
 		for _, g := range sp.Guards {
 			found := false
 			for _, h := range s.Guards {
-				if g == h {
+				if termEq(g, h) {
 					found = true
 				}
 			}
@@ -413,7 +413,7 @@ func (c *Ctx) CheckCallers(rule string, targets []string, specs []CallerSpec) {
 				}
 				ok := true
 				for j, a := range sp.Args {
-					if a != "*" && a != s.Args[j] {
+					if a != "*" && !termEq(a, s.Args[j]) {
 						ok = false
 					}
 				}
@@ -421,7 +421,7 @@ func (c *Ctx) CheckCallers(rule string, targets []string, specs []CallerSpec) {
 					counts[i]++
 					matched = true
 					key := name + "/" + s.Kind + ":" + s.Target + "(" + strings.Join(s.Args, ", ") + ")"
-					if sp.Guards != nil && joinSorted(sp.Guards) != joinSorted(s.Guards) {
+					if sp.Guards != nil && joinSorted(sp.Guards) != joinSorted(s.Guards) && joinSorted(canonAll(sp.Guards)) != joinSorted(canonAll(s.Guards)) {
 						c.Bad(rule, key+"/guard", c.pos(s.Instr), "reviewed call site, but it now happens under different conditions: expected ["+joinSorted(sp.Guards)+"], found ["+joinSorted(s.Guards)+"] ("+sp.Why+")")
 					} else {
 						c.Ok(rule, key, c.pos(s.Instr), "reviewed call site: "+sp.Why)
